@@ -132,7 +132,9 @@ def run(ctx, rep):
     rep.analysed(cl)
     rep.analysed(ul)
     LP = entry_paths(cl)
-    outs = outcomes(E, cl)
+    # private helpers of the handler's own module whose Option/Result payload is handed on count as part of the handler
+    hmod = (ROLES['STRUCT_HL'] or '').rsplit('::', 1)[0]
+    outs = outcomes(E, cl, through=lambda g: g.crate == 'libcnb' and g.path.startswith(hmod + '::') and g.kind != 'Closure')
     rows = {}
     for o in outs:
         r, dec = row_of(o)
